@@ -156,6 +156,18 @@ fn run_prop(prop: &str, tier: Tier, seed: u64) -> i32 {
             props::seq::c02(&ctx);
             ctx.finish(tier.pick(30, 300))
         }
+        "C14" => {
+            let ctx = Ctx::new(
+                "C14",
+                tier,
+                seed,
+                "exploration",
+                "key strings from a grammar over character classes (alnum, '-_.', '/', '\\', space, tab, NUL, control, non-ASCII, emoji, 250-300 byte names, dot runs, '../' runs) plus a list of special keys ('', '.', '..', '...', './x', '../x', 'a/../b', '/etc', ...), each through one of six construction paths (builder+data_dir, builder+WALRUS_DATA_DIR, new_for_key, with_consistency_for_key, with_consistency_and_schedule_for_key, new()+WALRUS_INSTANCE_KEY). The child snapshots the whole scratch tree before and after building the instance, appending, reading and marking. Oracle: the constructor failed and created nothing outside the data dir, or every new path lies under <data dir>/<c>/ for one component c not in {'', '.', '..'} and no file appears directly in the data dir or outside it. Each evaluation = one key; non-trivial = the key has a dot-only component, a separator, NUL, non-ASCII characters or is empty.",
+                &["NUL is removed from keys passed through environment variables (std::env::set_var cannot carry it)"],
+            );
+            props::keys::c14(&ctx);
+            ctx.finish(tier.pick(100, 1000))
+        }
         other => {
             eprintln!("unknown property {}", other);
             2
